@@ -162,6 +162,91 @@ theorem api_answers_are_specified (c : Coll) (hwf : c.WF) (f : Filter) (limit : 
   · exact page_is_suffix c hwf f limit r h
   · simp at h
 
+/-- The page length `search_ids` uses: `query.limit.unwrap_or(D).min(MAX_SEARCH_LIMIT)`. -/
+def searchPageLen (limit : Option Nat) : Nat :=
+  min (limit.getD Gen.FilterConsts.searchDefaultLimit) maxSearchLimit
+
+/-- What the whole of `search_ids` has to answer, given what its index stage produced. -/
+def searchSpec (c : Coll) (f : Option Filter) (cands : Option (List Nat)) (limit : Option Nat) : List Nat :=
+  match cands, f with
+  | some cs, some g => (cs.filter (denote c g)).take (searchPageLen limit)   -- candidates restricted to the match set
+  | some cs, none => cs.take (searchPageLen limit)                            -- plain search: head of the candidates
+  | none, some g => (fullResult c g).take (searchPageLen limit)               -- filter only: same page as `query_ids`
+  | none, none => []
+
+/-- `search_ids`, every combination of search part / filter / limit (default page, `0`, clamp):
+whenever it answers, the answer is `searchSpec` - in particular a search with a filter returns the
+relevance-ordered candidates restricted to the filter's match set, and the candidate breadth
+`top_k` never cuts a page short (`gen_searchBreadth_covers_page`, regenerated from the source). -/
+theorem search_ids_specified (c : Coll) (hwf : c.WF) (f : Option Filter) (cands : Option (List Nat))
+    (limit : Option Nat) (r : List Nat) (h : searchIds c f cands limit = .ok r) :
+    r = searchSpec c f cands limit := by
+  unfold searchIds at h
+  simp only [] at h
+  have hlen : min (limit.getD Gen.FilterConsts.searchDefaultLimit) maxSearchLimit = searchPageLen limit := rfl
+  rw [hlen] at h
+  generalize hl : searchPageLen limit = l at h
+  unfold searchSpec
+  rw [hl]
+  by_cases hl0 : l = 0
+  · subst hl0
+    simp only [BEq.rfl, if_true, Except.ok.injEq] at h
+    subst h
+    cases cands <;> cases f <;> simp
+  · have hb : (l == 0) = false := by simpa using hl0
+    simp only [hb, Bool.false_eq_true, if_false] at h
+    split at h
+    · -- the search part produced no candidate
+      simp only [Except.ok.injEq] at h
+      subst h
+      cases f <;> simp
+    · rename_i hne
+      cases f with
+      | none =>
+        simp only [Except.ok.injEq] at h
+        subst h
+        rw [truncate_eq_takeEnd]
+        cases cands with
+        | none => simp [takeEnd]
+        | some cs => simp [takeEnd, hl0]
+      | some g =>
+        simp only [] at h
+        cases cands with
+        | some cs =>
+          have hcs : cs ≠ [] := fun e => hne (by rw [e])
+          simp only [Option.getD_some] at h
+          have hsf : searchFilter c g cs l = .ok r := by
+            unfold searchFilter
+            exact h
+          exact search_filter_restricts c hwf g cs l hcs hl0 r hsf
+        | none =>
+          simp only [Option.getD_none] at h
+          split at h
+          · simp at h
+          · rename_i r1 hr1
+            simp only [Except.ok.injEq] at h
+            subst h
+            have hgen := Gen.FilterConsts.gen_searchBreadth_covers_page
+            have hle : l ≤ maxSearchLimit := by rw [← hl]; exact Nat.min_le_right _ _
+            have hk : l ≤ min (l * Gen.FilterConsts.searchFactor) Gen.FilterConsts.searchCap := by
+              refine Nat.le_min.mpr ⟨Nat.le_mul_of_pos_right l hgen.1, Nat.le_trans hle hgen.2⟩
+            have h1 := filterByField_none c hwf g _ false r1 hr1
+            rw [truncate_eq_takeEnd] at h1 ⊢
+            have hk0 : min (l * Gen.FilterConsts.searchFactor) Gen.FilterConsts.searchCap ≠ 0 := by omega
+            simp only [takeEnd, hk0, hl0, if_false, Bool.false_eq_true] at h1 ⊢
+            rw [← Nat.min_eq_left hk, ← List.take_take, h1, List.take_take]
+
+/-- `search_ids` as called: a filter outside the complexity budget is refused, otherwise as above. -/
+theorem api_search_ids_specified (c : Coll) (hwf : c.WF) (f : Option Filter) (cands : Option (List Nat))
+    (limit : Option Nat) (r : List Nat) (h : apiSearchIds c f cands limit = .ok r) :
+    r = searchSpec c f cands limit := by
+  unfold apiSearchIds at h
+  split at h
+  · split at h
+    · exact search_ids_specified c hwf _ cands limit r h
+    · simp at h
+  · exact search_ids_specified c hwf _ cands limit r h
+
 theorem over_budget_refused (c : Coll) (f : Filter) (limit : Option Nat) (h : withinBudget f = false) :
     apiQueryAllIds c f = .error .complexity ∧ apiQueryIds c f limit = .error .complexity ∧
     apiQueryLastIds c f limit = .error .complexity := by
@@ -194,6 +279,10 @@ example : queryLastIds exColl (.field 0 (.ge 0)) (some 2) = .ok [4, 5] := by rfl
 example : queryIds exColl (.and [.field 0 (.ge 0)]) (some 2) = .ok [1, 2] := by rfl
 example : queryIds exColl (.not (.field 0 (.between 15 35))) (some 2) = .ok [1, 2] := by rfl
 example : searchFilter exColl (.field 0 (.lt 45)) [5, 1, 3, 2] 2 = .ok [5, 3] := by rfl
+example : apiSearchIds exColl (some (.field 0 (.lt 45))) (some [5, 1, 3, 2]) (some 2) = .ok [5, 3] := by rfl
+example : apiSearchIds exColl (some (.field 0 (.lt 45))) none none = .ok [2, 3, 4, 5] := by rfl
+example : apiSearchIds exColl none (some [5, 1, 3, 2]) (some 3) = .ok [5, 1, 3] := by rfl
+example : apiSearchIds exColl (some (.field 0 (.lt 45))) (some [5, 1, 3, 2]) (some 0) = .ok [] := by rfl
 
 /-- Why the B-tree `Field` arm must not stop after `limit` ids: the scan walks *key* order. On
 `exColl` the pre-fix evaluation (`fieldScanKeyOrderStop`) pages `[2,3]` / `[1,4]` where the
